@@ -290,7 +290,7 @@ def work_memory(item):
     outcomes = {}
     damages = [("truncated", "truncated to %d of %d bytes" % (L, len(raw)), raw[:L]) for L in range(len(raw))]
     damages += [("suffix:" + sn, "followed by %s" % sn, raw + suf) for sn, suf in suffixes(raw)]
-    if tier == "quick":
+    if tier == "quick" and len(raw) > 400:
         damages = damages[::3] + damages[-7:]
     for dmg, detail, data in damages:
         n += 1
